@@ -45,7 +45,8 @@ var bytesPool = sync.Pool{
 //   - each fieldmask always starts with root path "$"
 //   - path "*" indicates all subsequent path of the fieldmask shares the same sub fieldmask
 func (fm *FieldMask) MarshalJSON() ([]byte, error) {
-	if fm == nil {
+	// NOTICE: a fieldmask without any path settled is the same as nil
+	if !fm.Exist() {
 		return []byte("null"), nil
 	}
 	buf := bytesPool.Get().(*[]byte)
